@@ -78,3 +78,16 @@ Proof. repeat split; reflexivity. Qed.
 From SymfcG Require Import ShapesBasis ShapesPerm.
 Theorem c04_recorded_sources2_in_force : ShapesBasis_as_recorded = true /\ ShapesPerm_as_recorded = true.
 Proof. repeat split; reflexivity. Qed.
+
+(** Auxiliary code on this property's path is the recorded source (the accessors and base constructor of the first-order basis-set class and the first-order atomic index table):
+    whole-function match, regenerated on every run. *)
+From SymfcG Require Import ShapesAuxO1.
+Theorem c04_recorded_sources3_in_force : ShapesAuxO1_as_recorded = true.
+Proof. repeat split; reflexivity. Qed.
+
+(** What the modules on this property's path consist of besides the function bodies is the recorded one: every signature with its
+    defaults and keyword-only arguments, decorators, class bases, method lists and module-level statements (imports, constants) --
+    regenerated on every run. *)
+From SymfcG Require Import SkelBasis SkelPerm SkelIdx.
+Theorem c04_module_skeletons_in_force : SkelBasis_as_recorded = true /\ SkelPerm_as_recorded = true /\ SkelIdx_as_recorded = true.
+Proof. repeat split; reflexivity. Qed.
